@@ -112,9 +112,12 @@ func plan(cs Case, g int) []planned {
 			p.attrs = []attrgen.Node{leaf("e", &attrgen.Val{T: "err", B: []byte("boom")}), leaf("f", &attrgen.Val{T: "dur", I: 1500000})}
 		}
 		if cs.Vias {
-			p.via = r.Intn(4)
-			if p.via == 3 {
+			p.via = r.Intn(8)
+			if p.via == 3 || p.via == 5 {
 				p.attrs = nil // the f-methods take no attributes
+			}
+			if p.via == 4 || p.via == 5 {
+				p.level = 3 // Panic / Panicf log at ERROR
 			}
 		}
 		out[j] = p
